@@ -65,9 +65,11 @@ def thorough_matrix():
     allocs = ["amc", "std", "ledgerstd", "ledgerrealloc", "ledgerbasic"]
     elems = ["TC1", "TC4", "TC12", "TR", "NTR", "PTT", "PTN"]
     n = 0
-    # pairwise-style sweep: every (flavour,N) x every element, size_type and allocator rotated so that each pair
-    # (element,size_type), (element,allocator), (flavour,size_type), (flavour,allocator) occurs
-    for fl, Ns in (("small", [1, 2, 3, 5]), ("vector", [0]), ("fixed", [2, 3, 4]), ("fixedu", [3])):
+    # every (flavour,N) x every element category; size_type and allocator rotated so that each pair (element,size_type),
+    # (element,allocator), (flavour,size_type), (flavour,allocator) occurs; size bound chosen so that every
+    # instantiation reaches its fixpoint (measured)
+    LB = {("small", 1): 4, ("small", 2): 5, ("small", 3): 5, ("vector", 0): 5}
+    for fl, Ns in (("small", [1, 2, 3]), ("vector", [0]), ("fixed", [2, 3, 4]), ("fixedu", [3])):
         for N in Ns:
             for ei, el in enumerate(elems):
                 for rot in range(2 if fl in ("small", "vector") else 1):
@@ -78,8 +80,11 @@ def thorough_matrix():
                         st = ["uint8_t", "uint16_t", "uint32_t"][n % 3]
                         m.append(inst(fl, N, el, st=st, L=N, K=1))
                     else:
-                        L = (N + 3) if fl == "small" else 5
-                        m.append(inst(fl, N, el, st=st, alloc=al, L=min(L, 7), K=1, opts=["--few-ranges"] if L >= 6 else []))
+                        L = LB[(fl, N)]
+                        m.append(inst(fl, N, el, st=st, alloc=al, L=L, K=1, opts=["--few-ranges"] if L >= 5 else []))
+    # larger inline capacity (kNbSlots = 8 for 1-byte elements: N=5 has no separate inline array)
+    for el, st, al in (("TC1", "uint8_t", "ledgerstd"), ("TC4", "uint16_t", "amc"), ("TR", "int16_t", "ledgerrealloc"), ("NTR", "int32_t", "ledgerstd")):
+        m.append(inst("small", 5, el, st=st, alloc=al, L=6, K=1, opts=["--few-ranges", "--no-ctors", "--no-alias"]))
     # pool of two, to the fixpoint
     for el, al, st in (("TC4", "amc", "uint32_t"), ("TR", "ledgerrealloc", "uint8_t"), ("NTR", "ledgerstd", "uint16_t"), ("PTN", "ledgerbasic", "int32_t")):
         m.append(inst("small", 2, el, st=st, alloc=al, K=2, L=3))
@@ -87,28 +92,12 @@ def thorough_matrix():
         m.append(inst("small", 3, el, st=st, alloc=al, K=2, L=3, opts=["--few-ranges", "--no-ctors"]))
         m.append(inst("vector", 0, el, st=st, alloc=al, K=2, L=3))
         m.append(inst("fixed", 3, el, st="uint8_t", K=2, L=3, opts=["--few-ranges"]))
-    m.append(inst("small", 2, "TC4", K=2, L=4, opts=["--few-ranges", "--no-ctors", "--no-menu", "--no-alias"]))
-    # C++20 (<=>, erase, erase_if), C++14/11 are covered by C16's replayer builds
+    # C++20 (<=>, erase, erase_if); C++11/14 are covered by C16's replayer builds
     for el in ("TC4", "TR", "NTR"):
         m.append(inst("small", 2, el, std="c++20", alloc="ledgerstd", L=4))
         m.append(inst("vector", 0, el, std="c++20", alloc="ledgerrealloc", L=4))
         m.append(inst("fixed", 3, el, std="c++20", st="uint8_t", L=3))
     return m
-
-
-class Eng:
-    """what differs between the vector (E1) and set (E2) explorers"""
-
-    def __init__(self, label, build_fn, name_fn, cat_fn, kind_fn):
-        self.label, self.build, self.name, self.cat, self.kind = label, build_fn, name_fn, cat_fn, kind_fn
-
-
-def _vcat(i):
-    return {"TC1": "TC", "TC4": "TC", "TC12": "TC", "TR": "TR", "PTT": "TR", "NTR": "NTR", "PTN": "NTR"}[i["elem"]]
-
-
-def _vkind(i):
-    return i["flavour"]
 
 
 def run_one(i, deadline_s, eng=None, ctx=None):
